@@ -496,6 +496,30 @@ fn edit_case<G: CurveTag>(bytes: &[u8], col: &mut Collector) -> Result<(), Failu
         }
         col.sample(nt, || json!({"program": prog.to_json(), "edit": desc, "outcome": format!("{:?}", r)}));
     }
+    // a verifier holding a generator object that overstates its capacity (fewer generators than
+    // its public field says): if the unaltered proof is accepted there at all, altered ones must
+    // still be rejected
+    let padded = prog.shape().padded();
+    if padded >= 2 && chi.chance(40) {
+        let hostile = || VerifyOpts::<G> { cap: Some(padded), real_cap: Some(padded / 2), ..Default::default() };
+        let b = run_verifier::<G>(&prog, &p.commitments, proof, &hostile());
+        if b.accepted() {
+            for (name, mm) in [("t_x+1", { let mut m = m0.clone(); m.t_x += <Fr<G> as ark_ff::One>::one(); m }), ("A_I1 := −A_I1", { let mut m = m0.clone(); m.A_I1 = (-m.A_I1.into_group()).into_affine(); m }), ("ipp.a+1", { let mut m = m0.clone(); m.ipp.a += <Fr<G> as ark_ff::One>::one(); m })] {
+                let Ok(alt) = mm.to_real() else { continue };
+                col.evals_add(1);
+                if run_verifier::<G>(&prog, &p.commitments, &alt, &hostile()).accepted() {
+                    return Err(Failure::new(
+                        "C04:accepted:under-overstated-generators",
+                        format!("a verifier whose generator object holds {} generators but declares {} accepts the proof and also the altered proof ({})", padded / 2, padded, name),
+                        json!({"program": prog.to_json(), "edit": name, "original_hex": hex::encode(o)}),
+                    ));
+                }
+            }
+            col.class("overstated-generators:baseline-accepted");
+        } else {
+            col.class("overstated-generators:baseline-not-accepted");
+        }
+    }
     Ok(())
 }
 
